@@ -294,6 +294,26 @@ def install_machine(it: Interp, trace: Optional[Trace] = None, area="symbolic", 
         return area
 
     it.hooks[(P, "path_area")] = path_area
+
+    # code that talks to the engine directly (not through one of the functions above) meets the abstract engine; a path
+    # built from a geometry token is that token under the given fill type
+    from sa.skia import SkPath, install_skia
+    if "pathops" not in getattr(it, "ext_modules", {}):
+        model = install_skia(it)
+        base_skia_path = closure_of(it.repo, "svg_pathops", "skia_path") if "skia_path" in it.repo["svg_pathops"].functions else None
+
+        def skia_path(i, a, k):
+            src = a[0]
+            rule = k.get("fill_rule", a[1] if len(a) > 1 else "nonzero")
+            if isinstance(src, GeomTok):
+                p = SkPath(model, {"nonzero": "FillType.WINDING", "evenodd": "FillType.EVEN_ODD"}.get(rule, repr(rule)))
+                p.verbs = [("geometry", (src,))]
+                return p
+            if base_skia_path is None:
+                raise Undecided("svg_pathops.skia_path is gone")
+            return i.call_closure(base_skia_path, a, k)
+
+        it.hooks[(P, "skia_path")] = skia_path
     return trace
 
 
